@@ -40,6 +40,8 @@ ASSUMPTIONS = [
     'PriorPredictiveModel, PosteriorPredictiveModel, '
     'ComposedPopulationModel); elsewhere a refusal is a rejection',
     'rank-correlation threshold with family-wise false alarm <= 1e-9',
+    "integer seeds are drawn below 2**32 (the routines that seed the legacy generator refuse larger ones; reviewers' observation, outside the property)",
+    'samplers whose only randomness is a discrete choice (a bare HeterogeneousModel) may repeat a draw under another seed: excluded from the seed-collision monitor',
 ]
 ANCHORS = [
     'chi._predictive_models.PredictiveModel.sample',
